@@ -19,10 +19,10 @@ Opaque setg.
 
 Section LA.
 Variable p : list N.
-Variable ci multi : bool.
+Variable ci multi lit : bool.
 Variable input : list N.
 Let n := length input.
-Let prog := mk_program p (OSeq [OAtom p; OEnd]) 1 ci multi true false.
+Let prog := mk_program p (OSeq [OAtom p; OEnd]) 1 ci multi lit false.
 Hypothesis Hfit : (N.of_nat (length p) <= umax)%N.
 Hypothesis Hne : p <> [].
 
